@@ -1346,6 +1346,9 @@ class sptensor:
         else:
             R = U[0].shape[1]
 
+        if not all(U[i].shape[1] == R for i in range(self.ndims) if i != n):
+            assert False, "All matrices must have the same number of columns."
+
         V = np.zeros((self.shape[n], R), order=self.order)
         for r in range(R):
             # Set up list with appropriate vectors for ttv multiplication
